@@ -45,7 +45,7 @@ theorem partSpec_holds {lt : Int → Int → Bool} (hlt : StrictWeak lt) {seqs :
 theorem pmmBase_correct (P : Params) (hlt : StrictWeak P.lt) (seqsAll : List (List Elem))
     (hw : WellTagged seqsAll) (hk : KeySorted P.lt seqsAll) (size : Nat) (hsize : size ≤ seqsAll.flatten.length)
     (hthr : 1 ≤ P.threads) (hosf : 1 ≤ P.osf)
-    (hidx : ∀ (len i ns : Nat), 0 < len → P.sampleIdx len i ns size size < len) :
+    (hidx : ∀ (len i ns : Nat), i < ns → 0 < len → P.sampleIdx len i ns size size < len) :
     ∃ r, pmmBase P seqsAll size = .ok r ∧ r.out = (kMerge P.lt seqsAll).take size ∧ r.ret = (size : Int) ∧
       (∃ o, IsPartition P.lt (keyRuns (nonEmpty seqsAll)) size o ∧ r.begins = scatterBegins seqsAll o) ∧
       TileFrom 0 size r.windows :=
@@ -55,7 +55,7 @@ theorem pmmBase_correct (P : Params) (hlt : StrictWeak P.lt) (seqsAll : List (Li
 theorem pmm_correct (P : Params) (hlt : StrictWeak P.lt) (fs fp : Bool) (mk mn : Nat)
     (seqsAll : List (List Elem)) (hw : WellTagged seqsAll) (hk : KeySorted P.lt seqsAll) (size : Nat)
     (hsize : size ≤ seqsAll.flatten.length) (hthr : 1 ≤ P.threads) (hosf : 1 ≤ P.osf)
-    (hidx : ∀ (len i ns : Nat), 0 < len → P.sampleIdx len i ns size size < len) :
+    (hidx : ∀ (len i ns : Nat), i < ns → 0 < len → P.sampleIdx len i ns size size < len) :
     ∃ r, pmm P fs fp mk mn seqsAll size = .ok r ∧ r.out = (kMerge P.lt seqsAll).take size ∧ r.ret = (size : Int) :=
   pmm_refines_spec P hlt fs fp mk mn seqsAll hw hk size hsize hthr hosf hidx
     (partSpec_holds hlt (nonEmpty_ne seqsAll) (fun r hr => hk r (List.mem_filter.mp hr).1))
